@@ -85,29 +85,34 @@ type outcome struct {
 }
 
 type interp struct {
-	p        *Prog
-	f        *ssa.Function
-	maxPaths int
-	maxVisit int // how often a block may be entered on one path (default 2: loops run at most once)
-	depth    int
-	out      []outcome
+	p               *Prog
+	f               *ssa.Function
+	maxPaths        int
+	structuralNames bool // name range elements after the ranged expression instead of the SSA register
+	maxVisit        int  // how often a block may be entered on one path (default 2: loops run at most once)
+	depth           int
+	out             []outcome
 	// hook: evaluate a call symbolically; return nil for the default (opaque term)
 	callHook func(st *istate, c *ssa.Call, args []*aval) *aval
 	// hook: decide a binary operation on symbolic operands; nil for the default
 	binopHook func(st *istate, x *ssa.BinOp, a, b *aval) *aval
 	// hook: decide whether a map/string range has another element (iteration k, 1-based)
 	nextHook func(st *istate, nx *ssa.Next, rangeOperand *aval, k int) *aval
+	// hook: name the question asked by a branch whose condition does not fold;
+	// the answer taken is recorded in the path's notes as "<label>=true|false"
+	forkHook func(st *istate, cond *aval, ifi *ssa.If) string
 }
 
 type istate struct {
-	env   map[ssa.Value]*aval
-	mem   map[ssa.Value]*aval // contents of local variables (whole-value)
-	path  []*ssa.BasicBlock
-	calls []string
-	notes []string // scratch area for hooks (copied on fork)
-	dead  bool     // a failing type assertion was executed: the path panics
-	rbase map[*ssa.BasicBlock]int // visits of a range loop's header before its current activation
-	count map[*ssa.BasicBlock]int
+	env     map[ssa.Value]*aval
+	mem     map[ssa.Value]*aval // contents of local variables (whole-value)
+	path    []*ssa.BasicBlock
+	calls   []string
+	notes   []string                // scratch area for hooks (copied on fork)
+	dead    bool                    // a failing type assertion was executed: the path panics
+	rbase   map[*ssa.BasicBlock]int // visits of a range loop's header before its current activation
+	decided map[string]bool         // outcome already taken on this path for a symbolic condition (by its term)
+	count   map[*ssa.BasicBlock]int
 }
 
 func (s *istate) clone() *istate {
@@ -127,6 +132,10 @@ func (s *istate) clone() *istate {
 	n.rbase = map[*ssa.BasicBlock]int{}
 	for k, v := range s.rbase {
 		n.rbase[k] = v
+	}
+	n.decided = map[string]bool{}
+	for k, v := range s.decided {
+		n.decided[k] = v
 	}
 	return n
 }
@@ -218,7 +227,34 @@ func (in *interp) block(st *istate, b *ssa.BasicBlock, pred *ssa.BasicBlock) {
 				}
 				return
 			}
+			// the same symbolic condition was already decided on this path
+			if c.k == aSym {
+				if v, ok := st.decided[c.sym]; ok {
+					if v {
+						in.block(st, b.Succs[0], b)
+					} else {
+						in.block(st, b.Succs[1], b)
+					}
+					return
+				}
+			}
 			s2 := st.clone()
+			if c.k == aSym {
+				if st.decided == nil {
+					st.decided = map[string]bool{}
+				}
+				if s2.decided == nil {
+					s2.decided = map[string]bool{}
+				}
+				st.decided[c.sym] = true
+				s2.decided[c.sym] = false
+			}
+			if in.forkHook != nil {
+				if label := in.forkHook(st, c, x); label != "" {
+					st.notes = append(st.notes, label+"=true")
+					s2.notes = append(s2.notes, label+"=false")
+				}
+			}
 			in.block(st, b.Succs[0], b)
 			in.block(s2, b.Succs[1], b)
 			return
@@ -250,7 +286,11 @@ func typeName(t types.Type) string { return typeStr(t) }
 func (in *interp) instr(st *istate, ins ssa.Instruction) {
 	switch x := ins.(type) {
 	case *ssa.Alloc:
-		a := symv("&"+x.Name(), x.Type())
+		name := x.Name()
+		if x.Comment != "" && x.Comment != "complit" && x.Comment != "varargs" && x.Comment != "slicelit" {
+			name = x.Comment
+		}
+		a := symv("&"+name, x.Type())
 		a.nonnil = true
 		st.env[x] = a
 	case *ssa.Store:
@@ -405,7 +445,13 @@ func (in *interp) instr(st *istate, ins ssa.Instruction) {
 				}
 			}
 			// the k-th element visited by this range on this path gets its own name
-			st.env[x] = symv(fmt.Sprintf("%s@%dr%d#%d", nx.Name(), st.count[nx.Block()], st.count[nx.Block()]-st.rbase[nx.Block()], x.Index), x.Type())
+			rname := nx.Name()
+			if in.structuralNames {
+				if rg, ok := nx.Iter.(*ssa.Range); ok {
+					rname = "elem(" + in.get(st, rg.X).String() + ")"
+				}
+			}
+			st.env[x] = symv(fmt.Sprintf("%s@%dr%d#%d", rname, st.count[nx.Block()], st.count[nx.Block()]-st.rbase[nx.Block()], x.Index), x.Type())
 			return
 		}
 		t := in.get(st, x.Tuple)
